@@ -127,6 +127,22 @@ M: List[Tuple[str, str, str, str, str]] = [
     ('c08-token-case-insensitive', 'C08', 'proxy/http/proxy/auth.py',
      "                    or parts[1] != self.flags.auth_code:",
      "                    or parts[1].lower() != self.flags.auth_code.lower():"),
+    # ---- C14 ---------------------------------------------------------------
+    ('c14-default-port-8080', 'C14', 'proxy/http/parser/parser.py',
+     "                    if self._url.port is not None else DEFAULT_HTTP_PORT",
+     "                    if self._url.port is not None else (DEFAULT_HTTP_PORT if self._url.remainder else 8080)"),
+    ('c14-userinfo-kept-in-host', 'C14', 'proxy/http/url.py',
+     "        parts = split_at[-1].split(COLON, 2)", "        parts = (split_at[-1] if username != b'' else raw).split(COLON, 2)"),
+    ('c14-strip-one-bracket', 'C14', 'proxy/common/utils.py',
+     "        addr = (addr[0][1:-1], addr[1])", "        addr = (addr[0][1:-1] if addr[0].count(':') < 7 else addr[0][1:], addr[1])"),
+    ('c14-revert-port-zero', 'C14', 'proxy/http/parser/parser.py',
+     "                    if self._url.port is not None else DEFAULT_HTTP_PORT", "                    if self._url.port else DEFAULT_HTTP_PORT"),
+    ('c14-connect-default-port-80', 'C14', 'proxy/http/parser/parser.py',
+     "                self.port = 443 if self._url.port is None else self._url.port",
+     "                self.port = (443 if self._url.hostname[:1] != b'[' else 80) if self._url.port is None else self._url.port"),
+    ('c14-port-int-lenient', 'C14', 'proxy/http/url.py',
+     "            return username, password, COLON.join(parts[:-1]), int(parts[-1])",
+     "            return username, password, COLON.join(parts[:-1]), int(parts[-1]) if parts[-1].isdigit() else None"),
 ]
 
 
